@@ -161,3 +161,17 @@ kernel('disc_smooth.B', F.DiscSmooth(), 'B', sizes_quick=_SM_Q, sizes_thorough=_
        bound_text='<= 4 entries, multiplicities in {1,2}, window k <= 2 (quick); <= 5 entries, multiplicities in {1,2,3}, k <= 3 (thorough); values symbolic')
 kernel('psth.B', MI.Psth(), 'B', sizes_quick=[(1, 1, 1), (2, 2, 1), (3, 2, 1), (2, 0, 2)], sizes_thorough=[(1, 1, 1), (2, 2, 1), (3, 2, 1), (2, 0, 2), (3, 2, 2), (4, 2, 1), (2, 1, 1, 1)],
        bound_text='<= 3 bins, <= 2 trains with <= 2 spikes (quick); <= 4 bins / 3 trains (thorough); np.linspace / np.histogram as assumed contracts')
+
+# ---- C10: vectorised evaluation; C09 / C10: histories over the real classes (drivers in pv/drivers.py)
+_SEQ = [(n, m) for n in (1, 2, 3) for m in (1, 2)]
+kernel('pwc_callseq.B', F.PwcEvalSeq(), 'B', sizes_quick=_SEQ, sizes_thorough=_SEQ + [(3, 3), (4, 2)], bound_text='<= 3 pieces, list of <= 2 times (quick); <= 4 pieces / 3 times (thorough)')
+kernel('pwl_callseq.B', F.PwlEvalSeq(), 'B', sizes_quick=_SEQ, sizes_thorough=_SEQ + [(3, 3), (4, 2)], bound_text='<= 3 pieces, list of <= 2 times (quick); <= 4 pieces / 3 times (thorough)')
+for _k in ('pwc', 'pwl'):
+    kernel('%s_hist_eval.B' % _k, F.History('%s_scale_then_eval' % _k, _k), 'B', sizes_quick=[(1, 1), (2, 1), (2, 2)], sizes_thorough=[(1, 1), (2, 1), (2, 2), (3, 2)],
+           bound_text='history evaluate(list) ; mul_scalar ; evaluate(list) vs fresh object; <= 2 pieces, <= 2 times (quick)')
+    kernel('%s_hist_copy.B' % _k, F.History('%s_copy_independent' % _k, _k), 'B', sizes_quick=[(1,), (2,), (3,)], sizes_thorough=[(1,), (2,), (3,), (4,)],
+           bound_text='history copy ; mul_scalar(original) ; <= 3 pieces')
+    for _cfg in ('fallback', 'compiled'):
+        kernel('%s_hist_acc_%s.B' % (_k, _cfg[:2]), F.History('%s_accumulate' % _k, _k, _cfg), 'B', sizes_quick=[(1, 1), (1, 2), (2, 1), (2, 2)],
+               sizes_thorough=[(1, 1), (1, 2), (2, 1), (2, 2), (3, 2), (2, 3)],
+               bound_text='history add ; mul_scalar ; add (same operand) then evaluate; <= 2 pieces per operand (quick) / 3 (thorough); %s kernel inlined' % _cfg)
